@@ -1,7 +1,7 @@
 (** Evaluator glue for C18: runs the model on what the harness ran the real
     code on. *)
 From AGH Require Import Base.Run Model.Schedule.
-From AGH Require Export Model.ScheduleText.
+From AGH Require Export Model.ScheduleText Model.BlockedSvcHttp.
 Local Open Scope Z_scope.
 
 Definition mk (s e : Z) := {| dr_start := s; dr_end := e |}.
@@ -11,6 +11,14 @@ Definition err_code (e : range_err) : Z :=
   | ENegStart => 1 | ENegEnd => 2 | EStartGeEnd => 3 | EStartGeMax => 4
   | EEndGtMax => 5 | EStartNotMin => 6 | EEndNotMin => 7
   end.
+
+(** What the harness observed after a request: status, then GET (ids, zone
+    name, the days' number texts), [Contains] of the stored schedule at some
+    instants given as (t, offset of the reported zone at t, verdict), and,
+    when the stored week is all-full or all-empty, the service names
+    ApplyBlockedServices produced. *)
+Definition http_obs :=
+  (Z * list bytes * bytes * list text_day * list (Z * Z * bool) * option (list bytes))%type.
 
 Inductive case :=
   (* instant (ns), zone offset at that instant (s), ranges (ns), observed Contains *)
@@ -36,7 +44,13 @@ Inductive case :=
      100 + syntax error code; when accepted the seven ranges (ns) and the
      texts of the re-marshalled document *)
   | CYamlText (fs : list field) (obs_err : Z) (obs_days : list (Z * Z)) (obs_back : list text_day)
-  | CJsonText (fs : list field) (obs_err : Z) (obs_days : list (Z * Z)) (obs_back : list text_day).
+  | CJsonText (fs : list field) (obs_err : Z) (obs_days : list (Z * Z)) (obs_back : list text_day)
+  (* history of blocked-services HTTP requests against a real DNSFilter:
+     ids of the service table that occur, the initial stored value (ids, zone
+     name, ranges in ns), what was observed before the first request and
+     after every request *)
+  | CHttp (known init_ids : list bytes) (init_zone : bytes) (init_days : list (Z * Z))
+      (obs0 : http_obs) (steps : list (op * http_obs)).
 
 Definition eqb_zz (a b : Z * Z) := (fst a =? fst b) && (snd a =? snd b).
 
@@ -67,6 +81,52 @@ Definition doc_ok (r : text_err + weekly) (print : Z -> bytes)
   | inl _ => true
   end.
 
+Definition http_obs_ok (known : list bytes) (st : Z) (s : bsvc) (o : http_obs) : bool :=
+  let '(ost, oids, ozone, odays, probes, app) := o in
+  let '(ids, zone, days) := get s in
+  let w := sc_days (bs_sched s) in
+  (st =? ost) && eqb_list eqb_bytes ids oids && eqb_bytes zone ozone &&
+  eqb_list (eqb_option eqb_bb) days odays &&
+  forallb (fun p : Z * Z * bool =>
+             let '(t, o, b) := p in Bool.eqb (contains w (fun _ => o) t) b) probes &&
+  match app with
+  | None => true
+  | Some l => match week_const w with
+              | Some paused => eqb_list eqb_bytes (apply known s paused) l
+              | None => false
+              end
+  end.
+
+Fixpoint http_run_ok (known : list bytes) (s : bsvc) (steps : list (op * http_obs)) : bool :=
+  match steps with
+  | [] => true
+  | (o, ob) :: steps =>
+      let (st, s') := step known o s in
+      http_obs_ok known st s' ob && http_run_ok known s' steps
+  end.
+
+(** Index of the first request whose observation differs (0 = the initial
+    observation), or -1. *)
+Fixpoint http_first_bad (known : list bytes) (s : bsvc) (steps : list (op * http_obs)) (i : Z) : Z :=
+  match steps with
+  | [] => -1
+  | (o, ob) :: steps =>
+      let (st, s') := step known o s in
+      if http_obs_ok known st s' ob then http_first_bad known s' steps (i + 1) else i
+  end.
+
+Fixpoint http_statuses (known : list bytes) (s : bsvc) (steps : list (op * http_obs)) : list (Z * Z) :=
+  match steps with
+  | [] => []
+  | (o, _) :: steps =>
+      let (st, s') := step known o s in
+      (st, Z.of_nat (length (bs_ids s'))) :: http_statuses known s' steps
+  end.
+
+Definition http_init (ids : list bytes) (zone : bytes) (days : list (Z * Z)) : bsvc :=
+  {| bs_ids := ids;
+     bs_sched := {| sc_zone := zone; sc_days := map (fun p => mk (fst p) (snd p)) days |} |}.
+
 Definition case_ok (c : case) : bool :=
   match c with
   | CContains t o w obs =>
@@ -91,6 +151,9 @@ Definition case_ok (c : case) : bool :=
   | CMsPrint d obs => eqb_bytes (print_ms_text d) obs
   | CYamlText fs e days back => doc_ok (unmarshal_fields parse_yaml_dur 7 fs) tu_string e days back
   | CJsonText fs e days back => doc_ok (unmarshal_fields parse_json_dur 7 fs) print_ms_text e days back
+  | CHttp known ids zone days o0 steps =>
+      let s := http_init ids zone days in
+      http_obs_ok known st_ok s o0 && http_run_ok known s steps
   end.
 
 Definition mismatches := Base.Run.mismatches case_ok.
@@ -118,4 +181,8 @@ Definition explain (c : case) :=
   | CJsonText fs _ _ _ =>
       let r := unmarshal_fields parse_json_dur 7 fs in
       (text_res_code r, match r with inr w => marshal_yaml w | _ => [] end)
+  | CHttp known ids zone days o0 steps =>
+      let s := http_init ids zone days in
+      ((if http_obs_ok known st_ok s o0 then http_first_bad known s steps 1 else 0),
+       http_statuses known s steps)
   end.
